@@ -1119,7 +1119,8 @@ class KullbackLeibler(Functional):
         """Return the KL-diveregnce in the point ``x``.
 
         If any components of ``x`` is non-positive, the value is positive
-        infinity.
+        infinity (except for zero components where the prior is zero as
+        well, which contribute ``0 log(0) := 0``).
         """
         # Lazy import to improve `import odl` time
         import scipy.special
@@ -1128,7 +1129,10 @@ class KullbackLeibler(Functional):
             if self.prior is None:
                 res = (x - 1 - np.log(x)).inner(self.domain.one())
             else:
-                xlogy = scipy.special.xlogy(self.prior, self.prior / x)
+                # g * log(g / x) = g * log(g) - g * log(x), with the
+                # convention 0 * log(0) = 0 in both terms
+                xlogy = (scipy.special.xlogy(self.prior, self.prior) -
+                         scipy.special.xlogy(self.prior, x))
                 res = (x - self.prior + xlogy).inner(self.domain.one())
 
         if not np.isfinite(res) or np.any(np.less(x, 0)):
